@@ -1365,9 +1365,38 @@ theorem convFold_keeps (ver : Ver) (x : Bytes × Bytes) (h1 : x.1 ≠ str "conne
       · left; exact convHeader_keeps ver c x hd h1 h2 h3
       · right; exact hx
 
+/-- names that are in the drop set from the start never get into `kept` -/
+theorem convFold_dropped (ver : Ver) (D : List Bytes) : ∀ (l : List (Bytes × Bytes)) (c : Conv),
+    (∀ n ∈ D, n ∈ c.drop) → (∀ x ∈ c.kept, x.1 ∉ D) →
+    ∀ x ∈ (l.foldl (convHeader ver) c).kept, x.1 ∉ D := by
+  intro l
+  induction l with
+  | nil => intro c _ hk; exact hk
+  | cons h t ih =>
+    intro c hd hk
+    rw [List.foldl_cons]
+    apply ih
+    · intro n hn; exact convHeader_drop ver c h n (hd n hn)
+    · rcases convHeader_kept ver c h with h1 | ⟨h1, h2, _, _⟩
+      · rw [h1]; exact hk
+      · rw [h1]
+        intro x hx
+        rcases List.mem_append.mp hx with hx | hx
+        · exact hk x hx
+        · simp only [List.mem_singleton] at hx
+          subst hx
+          intro hD
+          exact h2 (hd _ hD)
+
+theorem mem_connInit_drop (hs : List (Bytes × Bytes)) (c : Bytes × Bytes) (hc : c ∈ hs) (hn : c.1 = str "connection")
+    (n : Bytes) (ht : n ∈ connectionTokens c.2) : n ∈ (connInit hs).drop := by
+  simp only [connInit, List.mem_append, List.mem_flatten, List.mem_map, List.mem_filter]
+  right
+  exact ⟨connectionTokens c.2, ⟨c, ⟨hc, by simp [hn]⟩, rfl⟩, ht⟩
+
 theorem convertResponse_kept (ver : Ver) (method : Bytes) (h : Head) (kept : List (Bytes × Bytes))
     (bl : Option BodyLen) (hc : convertResponse ver method h = some (kept, bl)) :
-    kept = (h.headers.foldl (convHeader ver) {}).kept := by
+    kept = (h.headers.foldl (convHeader ver) (connInit h.headers)).kept := by
   unfold convertResponse at hc
   simp only at hc
   split at hc
